@@ -374,6 +374,9 @@ def all_algs_cases(c, rng, per_alg, with_exact=True):
         # two managers' de-duplication of combinations (on sums / on contents) decides what is explored
         for _ in range(max(30, 2 * per_alg)):
             cs.append({"alg": "ckk", "vals": [rng.randint(1, rng.choice([4, 6, 10])) for _ in range(rng.randint(6, 7))], "p": {"k": rng.choice([5, 5, 6])}})
+    if with_exact:      # ... and with 4 bins on 8-9 items: where, before fix F11, the two managers (and list / dict input) returned different sum vectors
+        for _ in range(max(30, 2 * per_alg)):
+            cs.append({"alg": "ckk", "vals": [rng.randint(1, rng.choice([5, 6, 8, 16])) for _ in range(rng.randint(8, 9))], "p": {"k": 4}})
     cs += C.random_pack_cases(rng, C.PACKERS + ["bin_completion"], per_alg)
     cs += C.random_cover_cases(rng, C.COVERS, per_alg)
     return cs
@@ -418,12 +421,16 @@ def C07(c):
     """the answer does not depend on how the items are presented"""
     rng = c.rng
 
+    full_sums = {}
+
     def judge(case, fmt, ot, got, names, ans):
         kind = ALGS[case["alg"]].kind
         if ot != PT:
             return []
         if J._is_none(got):
             return []
+        if isinstance(got, dict) and "sums" in got:
+            full_sums.setdefault(id(case), {"case": case})[fmt] = sorted(got["sums"])
         if kind == "partition":
             return J.judge_partition(case, fmt, ot, got, names, ans, allow_fewer=True)
         if kind == "pack":
@@ -452,6 +459,21 @@ def C07(c):
             kind = "format-dependence" if not J._is_err(got) else "exception:" + got["error"]
             c.check_direct(case["alg"], dict(case["p"], vals=case["vals"], alg=case["alg"], fmt=fmt), kind, ok, got,
                            f"same multiset of sums as for list input: {ref}")
+    # ... and the same through the full output (the contents-keeping manager): the sums of the returned bins in every format
+    for d in full_sums.values():
+        case, ref = d["case"], d.get("list")
+        if ref is None:
+            continue
+        for fmt in FORMATS:
+            got = d.get(fmt)
+            if fmt == "list" or got is None:
+                continue
+            if case["alg"] == "dp":
+                ok = obj_value(case["p"]["obj"], got) == obj_value(case["p"]["obj"], ref)
+            else:
+                ok = got == ref
+            c.check_direct(case["alg"], dict(case["p"], vals=case["vals"], alg=case["alg"], fmt=fmt, outtype=PT), "format-dependence", ok, got,
+                           f"same multiset of sums of the returned bins as for list input: {ref}")
 
 
 # ------------------------------------------------------------------------------------------------ C08
